@@ -292,6 +292,8 @@ def run_job(job: dict) -> dict:
             out["configs"].append(cres)
             continue
         cres["result_text"] = rec["result_text"]
+        if rec["result_text"] != prg_text(src_prg) and not cres["fired"]:
+            cres["fired"].append("normalize")
         if rec["mutated"] and "immut" in checks:
             cres["violations"].append({"kind": "mutated_argument"})
         if "valid" in checks:
